@@ -129,6 +129,25 @@ func boundsFromGuards(gs []guardEdge, v ssa.Value) (lo, hi *int64) {
 		}
 	}
 	for _, g := range gs {
+		// a range predicate of the package (isUint16(v)): what its verdict says about the argument
+		if call, isCall := g.cond.(*ssa.Call); isCall {
+			if f := call.Call.StaticCallee(); f != nil && f.Blocks != nil && len(f.Params) == len(call.Call.Args) {
+				for i, a := range call.Call.Args {
+					if stripConv(a) != v {
+						continue
+					}
+					if plo, phi := predicateBounds(f, f.Params[i], g.pol, 0); plo != nil || phi != nil {
+						if plo != nil {
+							set(&lo, *plo, true)
+						}
+						if phi != nil {
+							set(&hi, *phi, false)
+						}
+					}
+				}
+			}
+			continue
+		}
 		bo, ok := g.cond.(*ssa.BinOp)
 		if !ok {
 			continue
@@ -202,4 +221,67 @@ func boundsFromGuards(gs []guardEdge, v ssa.Value) (lo, hi *int64) {
 		}
 	}
 	return
+}
+
+// predicateBounds: the bounds on parameter prm that hold whenever the boolean function f returns want. Every
+// return that can yield want contributes the bounds of its guards (and of the returned comparison itself); the
+// result is what all of them have in common (the weakest).
+func predicateBounds(f *ssa.Function, prm *ssa.Parameter, want bool, depth int) (lo, hi *int64) {
+	if depth > 2 || f.Signature.Results().Len() != 1 {
+		return nil, nil
+	}
+	type rng struct{ lo, hi *int64 }
+	var cases []rng
+	addCase := func(gs []guardEdge) {
+		l, h := boundsFromGuards(gs, prm)
+		cases = append(cases, rng{l, h})
+	}
+	var visit func(v ssa.Value, at *ssa.BasicBlock, pol bool, d int)
+	visit = func(v ssa.Value, at *ssa.BasicBlock, pol bool, d int) {
+		if d > 6 {
+			cases = append(cases, rng{})
+			return
+		}
+		switch x := v.(type) {
+		case *ssa.Const:
+			if x.Value != nil && constant.BoolVal(x.Value) == pol {
+				addCase(edgeGuards(at))
+			}
+		case *ssa.Phi:
+			for i, e := range x.Edges {
+				visit(e, x.Block().Preds[i], pol, d+1)
+			}
+		case *ssa.UnOp:
+			if x.Op == token.NOT {
+				visit(x.X, at, !pol, d+1)
+				return
+			}
+			cases = append(cases, rng{})
+		case *ssa.BinOp, *ssa.Call:
+			addCase(append(edgeGuards(at), guardEdge{cond: v, pol: pol}))
+		default:
+			cases = append(cases, rng{})
+		}
+	}
+	for _, b := range f.Blocks {
+		if ret, ok := b.Instrs[len(b.Instrs)-1].(*ssa.Return); ok && len(ret.Results) == 1 {
+			visit(ret.Results[0], b, want, 0)
+		}
+	}
+	if len(cases) == 0 {
+		return nil, nil
+	}
+	for i, cs := range cases {
+		if i == 0 {
+			lo, hi = cs.lo, cs.hi
+			continue
+		}
+		if lo != nil && (cs.lo == nil || *cs.lo < *lo) {
+			lo = cs.lo
+		}
+		if hi != nil && (cs.hi == nil || *cs.hi > *hi) {
+			hi = cs.hi
+		}
+	}
+	return lo, hi
 }
